@@ -215,7 +215,7 @@ func c09Synthetic(rt *rapid.T) *c09Case {
 		argc := rapid.IntRange(0, 3).Draw(rt, fmt.Sprintf("argc%d", i))
 		var args []string
 		for j := 0; j < argc; j++ {
-			args = append(args, rapid.SampledFrom([]string{"1", "x", "h(1)", "kk(2, 3)", "a1", "b2", "s[0]", "t[i+1]", "first", "second", "y+1"}).Draw(rt, fmt.Sprintf("arg%d_%d", i, j)))
+			args = append(args, rapid.SampledFrom([]string{"1", "x", "h(1)", "kk(2, 3)", "a1", "b2", "s[0]", "t[i+1]", "first", "second", "y+1", "outer(h(1))", "box(kk(2, 3), first)", "s[h(2)]", "outer(h(1))", "0", "nil"}).Draw(rt, fmt.Sprintf("arg%d_%d", i, j)))
 		}
 		fn := rapid.SampledFrom([]string{"f0", "f0", "f0", "g0", "pair"}).Draw(rt, fmt.Sprintf("fn%d", i))
 		call := fmt.Sprintf("%s(%s)", fn, strings.Join(args, ", "))
@@ -244,7 +244,7 @@ func c09Synthetic(rt *rapid.T) *c09Case {
 		{"%s(a, ...)", "%s(a)", "var a expression\n"},
 		{"%s", "%s", ""},
 	}
-	steps := rapid.IntRange(2, 5).Draw(rt, "steps")
+	steps := rapid.IntRange(2, 6).Draw(rt, "steps")
 	cur := rapid.SampledFrom([]string{"f0", "g0", "pair"}).Draw(rt, "start")
 	for i := 0; i < steps; i++ {
 		next := fmt.Sprintf("f%d", i+1)
@@ -261,9 +261,151 @@ func c09Synthetic(rt *rapid.T) *c09Case {
 				cs.Changes = append(cs.Changes, c09FailingChange(cur))
 				continue
 			}
+		case 3: // rewrite something strictly inside the arguments of the calls
+			inner := []string{
+				"@@\nvar a expression\n@@\n-h(a)\n+hq(a)\n",
+				"@@\nvar a, b expression\n@@\n-kk(a, b)\n+kk(b, a)\n",
+				"@@\nvar a expression\n@@\n-s[a]\n+s[a+0]\n",
+				"@@\n@@\n-first\n+firstq\n",
+				"@@\nvar a expression\n@@\n-hq(a)\n+h(h(a))\n",
+			}
+			cs.Changes = append(cs.Changes, inner[rapid.IntRange(0, len(inner)-1).Draw(rt, fmt.Sprintf("inner%d", i))])
+			continue
+		case 4: // a change that binds its metavariable at the current calls and then fails to match
+			near := []string{
+				"@@\nvar a expression\n@@\n-%s(a, nosuchq)\n+neverq(a)\n",
+				"@@\nvar a expression\n@@\n-%s(a, a, a, a)\n+neverq(a)\n",
+				"@@\nvar a, b expression\n@@\n-%s(a, b, nosuchq)\n+neverq(b, a)\n",
+				"@@\nvar a expression\n@@\n-use(%s(a), nosuchq)\n+neverq(a)\n",
+			}
+			cs.Changes = append(cs.Changes, fmt.Sprintf(near[rapid.IntRange(0, len(near)-1).Draw(rt, fmt.Sprintf("near%d", i))], cur))
+			continue
 		}
 		cs.Changes = append(cs.Changes, fmt.Sprintf("@@\n%s@@\n-%s\n+%s\n", p.meta, fmt.Sprintf(p.minus, cur), fmt.Sprintf(p.plus, next)))
 		cur = next
+	}
+	return cs
+}
+
+// c09GuardPool: changes that alter, or are guarded by, the package clause and
+// the imports of the file. Whether a later change applies depends on what the
+// earlier ones did to the clause / the import block ("later changes see code
+// introduced by earlier ones, and never see code earlier ones removed").
+var c09GuardPool = []string{
+	"@@\n@@\n-package foo\n+package bar\n\n Foo()\n",
+	"@@\n@@\n-package bar\n+package foo\n\n Foo()\n",
+	"@@\n@@\n package bar\n\n-Foo()\n+BarOnly()\n",
+	"@@\n@@\n package foo\n\n-Foo()\n+FooOnly()\n",
+	"@@\nvar x expression\n@@\n-import \"example.com/oldlog\"\n+import \"example.com/newlog\"\n\n-oldlog.Print(x)\n+newlog.Print(x)\n",
+	"@@\nvar x expression\n@@\n-import \"example.com/newlog\"\n+import \"example.com/oldlog\"\n\n-newlog.Print(x)\n+oldlog.Print(x)\n",
+	"@@\n@@\n import \"example.com/oldlog\"\n\n-flushLogs()\n+oldlog.Flush()\n",
+	"@@\n@@\n import \"example.com/newlog\"\n\n-flushLogs()\n+newlog.Flush()\n",
+	"@@\n@@\n+import \"context\"\n\n-Foo()\n+FooCtx(context.TODO())\n",
+	"@@\n@@\n import \"context\"\n\n-fmt.Println()\n+fmt.Println(context.TODO())\n",
+	"@@\nvar x expression\n@@\n-import \"fmt\"\n\n-fmt.Println(x)\n+println(x)\n",
+	"@@\n@@\n-import \"fmt\"\n\n-fmt.Println()\n+println()\n",
+	"@@\n@@\n import \"fmt\"\n\n-tail()\n+fmt.Print(tail())\n",
+	"@@\nvar lg identifier\n@@\n import lg \"example.com/oldlog\"\n\n-lg.Print(1)\n+lg.Print(2)\n",
+	"@@\n@@\n-import \"example.com/oldlog\"\n+import lg2 \"example.com/oldlog\"\n\n-oldlog.Print(2)\n+lg2.Print(3)\n",
+	"@@\n@@\n import lg2 \"example.com/oldlog\"\n\n-tail()\n+lg2.Tail()\n",
+}
+
+func c09Guards(rt *rapid.T) *c09Case {
+	cs := &c09Case{Family: "guards"}
+	var f strings.Builder
+	f.WriteString("package " + rapid.SampledFrom([]string{"foo", "foo", "bar"}).Draw(rt, "pkg") + "\n\n")
+	imps := []string{"\"fmt\""}
+	switch rapid.IntRange(0, 3).Draw(rt, "log") {
+	case 0, 1:
+		imps = append(imps, "\"example.com/oldlog\"")
+	case 2:
+		imps = append(imps, "\"example.com/newlog\"")
+	}
+	if rapid.Bool().Draw(rt, "grouped") {
+		f.WriteString("import (\n")
+		for _, i := range imps {
+			f.WriteString("\t" + i + "\n")
+		}
+		f.WriteString(")\n\n")
+	} else {
+		for _, i := range imps {
+			f.WriteString("import " + i + "\n")
+		}
+		f.WriteString("\n")
+	}
+	f.WriteString("func run() {\n")
+	lines := []string{"oldlog.Print(1)", "newlog.Print(1)", "flushLogs()", "Foo()", "fmt.Println()", "fmt.Println(1)", "tail()"}
+	for i, l := range lines {
+		if strings.HasPrefix(l, "oldlog.") && len(imps) > 1 && imps[1] != "\"example.com/oldlog\"" || strings.HasPrefix(l, "newlog.") && (len(imps) < 2 || imps[1] != "\"example.com/newlog\"") || strings.HasPrefix(l, "oldlog.") && len(imps) < 2 {
+			continue
+		}
+		if rapid.IntRange(0, 4).Draw(rt, fmt.Sprintf("line%d", i)) > 0 {
+			f.WriteString("\t" + l + "\n")
+		}
+	}
+	f.WriteString("}\n")
+	cs.File = f.String()
+	steps := rapid.IntRange(2, 5).Draw(rt, "steps")
+	for i := 0; i < steps; i++ {
+		cs.Changes = append(cs.Changes, c09GuardPool[rapid.IntRange(0, len(c09GuardPool)-1).Draw(rt, fmt.Sprintf("g%d", i))])
+	}
+	return cs
+}
+
+// c09Focused: every step concerns the same few calls fK(<nested argument>,
+// <tail>): a step may bind a metavariable to the nested argument and then fail
+// to match, rewrite something strictly inside that argument, or reproduce the
+// argument under a new callee. Whatever a compiled change remembers about a
+// node from an earlier step must not show in a later one.
+func c09Focused(rt *rapid.T) *c09Case {
+	cs := &c09Case{Family: "synthetic-focused"}
+	nested := []string{"outer(h(1))", "box(kk(2, 3), first)", "s[h(2)]", "outer(outer(h(3)))", "w.m(h(4))"}
+	tails := []string{"0", "nil", "x", "1"}
+	var f strings.Builder
+	f.WriteString("package p\n\nfunc calls() {\n")
+	n := rapid.IntRange(1, 3).Draw(rt, "nCalls")
+	for i := 0; i < n; i++ {
+		call := fmt.Sprintf("f0(%s, %s)", rapid.SampledFrom(nested).Draw(rt, fmt.Sprintf("arg%d", i)), rapid.SampledFrom(tails).Draw(rt, fmt.Sprintf("tail%d", i)))
+		switch rapid.IntRange(0, 2).Draw(rt, fmt.Sprintf("ctx%d", i)) {
+		case 0:
+			f.WriteString("\t" + call + "\n")
+		case 1:
+			f.WriteString("\t_ = " + call + "\n")
+		default:
+			f.WriteString("\tif ok(" + call + ") {\n\t}\n")
+		}
+	}
+	f.WriteString("}\n")
+	cs.File = f.String()
+	cur := "f0"
+	steps := rapid.IntRange(3, 6).Draw(rt, "steps")
+	for i := 0; i < steps; i++ {
+		switch rapid.IntRange(0, 3).Draw(rt, fmt.Sprintf("kind%d", i)) {
+		case 0: // binds a, then fails on the tail
+			t := rapid.SampledFrom([]string{"nosuchq", "\"no\"", "7777"}).Draw(rt, fmt.Sprintf("miss%d", i))
+			cs.Changes = append(cs.Changes, fmt.Sprintf("@@\nvar a expression\n@@\n-%s(a, %s)\n+neverq(a)\n", cur, t))
+		case 1: // rewrites strictly inside the nested argument
+			inner := []string{
+				"@@\nvar a expression\n@@\n-h(a)\n+hq(a)\n",
+				"@@\nvar a expression\n@@\n-hq(a)\n+h(a, a)\n",
+				"@@\nvar a, b expression\n@@\n-kk(a, b)\n+kk(b, a)\n",
+				"@@\n@@\n-first\n+firstq\n",
+			}
+			cs.Changes = append(cs.Changes, rapid.SampledFrom(inner).Draw(rt, fmt.Sprintf("inner%d", i)))
+		default: // reproduces the argument under a new callee
+			next := fmt.Sprintf("f%d", i+1)
+			forms := []string{
+				"@@\nvar a, b expression\n@@\n-%s(a, b)\n+%s(a, b)\n",
+				"@@\nvar a, b expression\n@@\n-%s(a, b)\n+%s(b, a)\n",
+				"@@\nvar a expression\n@@\n-%s(a, ...)\n+%s(a, ...)\n",
+				"@@\nvar a, b expression\n@@\n-%s(a, b)\n+%s(a, a, b)\n",
+			}
+			cs.Changes = append(cs.Changes, fmt.Sprintf(rapid.SampledFrom(forms).Draw(rt, fmt.Sprintf("form%d", i)), cur, next))
+			if rapid.IntRange(0, 3).Draw(rt, fmt.Sprintf("swapback%d", i)) == 0 {
+				// the swapped form puts the tail first: keep the pattern shape simple by not chaining further on it
+			}
+			cur = next
+		}
 	}
 	return cs
 }
@@ -323,9 +465,16 @@ func TestC09(t *testing.T) {
 	c := coll("C09")
 	checkN(t, func(rt *rapid.T) {
 		var cs *c09Case
-		if rapid.IntRange(0, 2).Draw(rt, "family") == 0 {
-			cs = c09Synthetic(rt)
-		} else {
+		switch rapid.IntRange(0, 3).Draw(rt, "family") {
+		case 0:
+			if rapid.Bool().Draw(rt, "focused") {
+				cs = c09Focused(rt)
+			} else {
+				cs = c09Synthetic(rt)
+			}
+		case 1:
+			cs = c09Guards(rt)
+		default:
 			cs = c09Mined(rt)
 		}
 		if cs == nil || len(cs.Changes) < 2 {
@@ -335,8 +484,12 @@ func TestC09(t *testing.T) {
 		// split into patch files and choose the channel
 		n := len(cs.Changes)
 		rest := n
+		oneFile := rapid.IntRange(0, 2).Draw(rt, "oneFile") == 0
 		for rest > 0 {
 			k := rapid.IntRange(1, rest).Draw(rt, fmt.Sprintf("split%d", len(cs.Split)))
+			if oneFile {
+				k = rest
+			}
 			cs.Split = append(cs.Split, k)
 			rest -= k
 		}
